@@ -20,7 +20,9 @@ CHECKS = {
     "C02": dict(
         text="Every row of every simulated frame (1-8 agents, on and off the grid, all mixes of filtered/unfiltered discrete and "
              "0-2 continuous choices, value arrays from solve / the combined target / arbitrary arrays) is judged by TLC: grid "
-             "values, filters and constraints at the logged state, Q(choice) = max Q, value = max Q.",
+             "values, filters and constraints at the logged state, Q(choice) = max Q, value = max Q. Thorough: MC_Sim checks the "
+             "implementation-shaped forward step of spec/Simulate.tla against the declarative rule for every model of "
+             "spec/Family.tla and every two-agent batch (MC_Sim_d3.cfg = the repaired defect D3 is found by TLC).",
         note="Trusted: TLC, spec/Bellman.tla (Q, FeasMax), MDL code generator. Ties are spec nondeterminism; values compared "
              "up to a rounding-level tolerance, never arg-max identity.",
         technique="TLC trace validation of recorded simulation rows against the declarative decision rule", ref="§6 C02"),
@@ -55,7 +57,8 @@ CHECKS = {
     "C08": dict(
         text="For deterministic models a reference batch and its permutation, a shuffled subset, a batch with duplicated agents "
              "and the batch with reversed initial_states key order are simulated; TLC (TracePipeline!RelSimFail) requires "
-             "identical per-agent paths; for stochastic models identical period-0 decisions and values.",
+             "identical per-agent paths; for stochastic models identical period-0 decisions and values. Thorough: MC_Sim invariant "
+             "AgentIndependent (an agent's result in a two-agent batch equals its result alone) on spec/Simulate.tla.",
         note="Code-vs-code relation judged by TLC on recorded frames; batches of up to 8 (thorough 64) agents.",
         technique="TLC trace validation of relations between recorded simulation frames of transformed batches", ref="§6 C08"),
     "C17": dict(
